@@ -33,6 +33,9 @@ CHECKS = {
              technique="Coq proof (decode-of-encode by induction on nesting, field by field against the reference fold) + reference-vs-dynamicpb differential", design="4 C05", note=PROOF_NOTE + " dynamicpb/protobuf-go is the reference runtime. Enums are treated as open (values from the declared set for proto2)."),
  "C17": dict(text="Theorems: generated Marshal returns the required-field error exactly when a required field of the message or of any message reachable through set fields, list elements, map values or oneof members is unset (empty message included); [unmarshal direction: see evidence]. Correspondence + oracle on every proto2 corpus type with required fields unset at every nesting position, both directions, vs proto.CheckInitialized / proto.Unmarshal of dynamicpb.",
              technique="Coq proof (error iff requireds_set, by induction along the marshal traversal) + differential vs dynamicpb CheckInitialized", design="4 C17", note=PROOF_NOTE),
+
+ "C16": dict(category="other", text="Two parts. (1) Machine-checked theorems about the plug-in's decision logic (GenNames.v): every message definition at any nesting depth is visited exactly once, single-file mode writes exactly the documented name, per-message output names are pairwise distinct iff the lower-cased short names are (so the per-message mode is refuted for valid schemas whose names differ only in case or repeat in nested scopes: finding G17), documented option values accepted / others rejected. (2) What no Gallina model can carry -- that the emitted text is deterministic, valid, compiling Go -- is established by exhaustive generation over the corpus: feature matrix (all kinds x cardinalities x map pairs x oneofs x nesting, proto2+proto3) plus naming/import edge cases x all 8 option variants x both runtimes: plug-in run twice per request under different cwd/TZ, responses byte-identical, names compared with the model, every file parsed with go/parser and every package compiled.",
+             technique="Coq proof of naming/traversal/option logic + exhaustive generate-twice-parse-compile over the corpus", design="4 C16", note="Validity of emitted Go for schemas outside the corpus is NOT proved (exploration strength for that clause). Trusted: Coq kernel for the theorems; go/parser, the Go compiler, protoc-gen-go/protoc-gen-gogo for the base types; the corpus builder."),
 }
 
 NOT_YET = {}
